@@ -154,7 +154,7 @@ func c17Thorough(c *Ctx, hdr *c17Hdr, chroot bool) {
 	wg.Add(1)
 	go func() {
 		defer wg.Done()
-		run := c17Run{configs: []string{"restricted"}, trees: []int{0}, alphabet: "Alphabet10", extra: "Pinned", maxLen: 6, maxOps: 1, shards: 10, workers: 8}
+		run := c17Run{configs: []string{"restricted"}, trees: []int{0}, alphabet: "Alphabet10", extra: "AllPinned", sweep: "ByteSweep", maxLen: 6, maxOps: 1, shards: 10, workers: 8}
 		r, err := c.TLC(TLCOpt{Spec: "RestrictIO_MC", Cfg: c17CfgText(run, "none", false, c17Invs, c17Props), Workers: 8, Timeout: 25 * time.Minute})
 		if err != nil {
 			c.Infra(err)
